@@ -46,19 +46,28 @@ func runGroup(w *world.World, o *kernel.Outcome, stream string, ops []*groupOp, 
 		return ""
 	}
 	defer func() { w.Store.OnCall = prev }()
+	// a slow client: the server may be held up wherever it writes body bytes of its answer
+	prevW := w.Net.OnWrite
+	w.Net.OnWrite = func(ctx context.Context, ex *world.Exchange) {
+		if name, ok := ctx.Value(groupTaskKey{}).(string); ok {
+			sched.Park(name, "net.write", nil)
+		}
+	}
+	defer func() { w.Net.OnWrite = prevW }()
 	for i, op := range ops {
 		name := fmt.Sprintf("t%d", i)
 		byTask[name] = op
 		op.inv, op.ret = -1, -1
-		go func() {
+		sched.Go(name, func() {
 			if sched.Park(name, "start", nil) != "go" {
 				return
 			}
 			op.started = true
 			op.inv = len(sched.Trace)
-			op.resp = op.do(context.WithValue(context.Background(), groupTaskKey{}, name))
+			resp := op.do(context.WithValue(context.Background(), groupTaskKey{}, name))
 			op.ret = len(sched.Trace)
-		}()
+			op.resp = resp
+		})
 	}
 	injected := 0
 	err := sched.Run(func(draining bool) []kernel.Event {
@@ -78,6 +87,13 @@ func runGroup(w *world.World, o *kernel.Outcome, stream string, ops []*groupOp, 
 	}, nil)
 	if err != nil {
 		o.Infra = err.Error()
+	}
+	if len(sched.StuckSeen) > 0 {
+		// the code under test made one request wait for another one
+		o.ProbeN("requests-blocked-on-other-requests", len(sched.StuckSeen))
+	}
+	if left := sched.StuckNow(); len(left) > 0 {
+		o.Infra = fmt.Sprintf("group %s: requests %v never returned (they wait for something no other request releases)", stream, left)
 	}
 	return sched.Trace
 }
